@@ -720,7 +720,8 @@ def context_check(helper, okind, status, ckind, depth, suppress):
 
 # ---- family X, part 2: OSError-family classes that no classifier branch names ------------------------------------------
 # Expected verdict from the property text ("any other error: raised at once"), for: a builtin OSError subclass whose
-# class object is not exactly named by any classifier isinstance test, carrying an errno that the classifiers compare
+# class object is not exactly named by any classifier isinstance test of the tree under test and is not in the pinned
+# vocabulary (classes with a hand-written constructor in CTORS), carrying an errno that the classifiers compare
 # nowhere (not in RETRYABLE_ERRNOS of the tree under test, not among the integer constants in the classifiers' source,
 # not a socket.EAI_* constant they use).  The errno reference set is read from the tree under test: it is a pinned
 # reference, the property text names no errno.
@@ -734,7 +735,20 @@ def _reference_errnos():
 
 
 REF_ERRNOS = _reference_errnos()
-OSX = [c for c in _builtin_subclasses(OSError) if c not in NAMED]
+def _pinned_vocabulary():
+    """classes the hand-written constructor table knows: the classifiers' vocabulary when this check was written.  A
+    refactoring that names a base class instead (isinstance(e, ConnectionError)) does not move them into family X."""
+    out = []
+    for nm in CTORS:
+        try:
+            out.append(_resolve(nm))
+        except HarnessError:
+            pass
+    return out
+
+
+PINNED = _pinned_vocabulary()
+OSX = [c for c in _builtin_subclasses(OSError) if c not in NAMED and c not in PINNED]
 OSX_SYM = [_sym_os(c) for c in OSX]
 ERRNO_MAX = 200
 
@@ -795,8 +809,11 @@ def osx_check(helper, okind, en):
         if en == r:
             return ''          # an errno the classifiers do compare: not part of this obligation
     outcome, same, ncalls, nsleeps = osx_run(helper, okind, en)
-    name = OSX[okind].__name__ if 0 <= okind < len(OSX) else str(okind)
     if outcome != 'raised':
+        name = '?'
+        for i in range(len(OSX)):      # by comparison: indexing with a symbolic integer would realise it
+            if okind == i:
+                name = OSX[i].__name__
         return f'{name}(errno={en}) was retried ({ncalls} calls, outcome {outcome})'
     if not same:
         return 'a different exception object was raised'
